@@ -470,7 +470,13 @@ class Real:
         e = self.e
         sub = Subroutine(instructions=[build(j) for j in sb["p"]], app_id=sb["a"])
         sb["sid"] = e._next_subroutine_id
-        sb["gen"] = e.execute_subroutine(sub)
+        if self.msg:
+            # message route: the controller's handler generator for a SUBROUTINE message; the runtime
+            # may handle a second message while this one is suspended at a yield point
+            self.nmsg += 1
+            sb["gen"] = self.ctrl.handle_netqasm_message(self.nmsg, SubroutineMessage(subroutine=sub))
+        else:
+            sb["gen"] = e.execute_subroutine(sub)
         self._to_pre(sb["gen"])      # starts the subroutine, parks before instruction 0
 
     @staticmethod
@@ -686,6 +692,106 @@ class InvariantObserver:
                       error=r["fault"])
         if o["k"] == "init" and not faulted and a in self.snap:
             self.fail("second registration of a running application id was accepted", idx, o)
+
+
+def _instr_regs(j):
+    """(registers read strictly — an undefined value must make the instruction fault —, register written)
+    of a JSON instruction; registers as (bank, index)"""
+    m, x = j[0], j[1:]
+
+    def r(k):
+        return (x[k], x[k + 1])
+    if m in ("set", "lea"):
+        return [], r(0)
+    if m == "load":
+        return [r(3)], r(0)
+    if m == "store":
+        return [r(0), r(3)], None
+    if m == "undef":
+        return [r(1)], None
+    if m == "array":
+        return [r(0)], None
+    if m in AR:
+        return [r(2), r(4)], r(0)
+    if m in ARM:
+        return [r(2), r(4), r(6)], r(0)
+    if m in ("blt", "bge"):
+        return [r(0), r(2)], None
+    if m in ("ret_reg", "qalloc", "qfree"):
+        return [r(0)], None
+    if m == "meas":
+        return [r(0)], r(2)
+    kind = m.partition(":")[0]
+    if kind in ("q1", "rot"):
+        return [r(0)], None
+    if kind in ("q2", "crot"):
+        return [r(0), r(2)], None
+    return [], None      # jmp, ret_arr, bez/bnz/beq/bne (comparisons with an undefined value do not fault)
+
+
+class FreshObserver:
+    """"Stopping an application releases all of its memory so that the same id can be registered again":
+    the classical state of a (re-)registered application is fresh and its own.  Model-free, from the
+    executed instructions only: (a) an instruction that strictly reads a register which no instruction
+    of this application has written since its registration must fault (read-before-write never yields
+    a value of a predecessor); (b) every register written since the registration holds a value in the
+    application's own register table.  Tracked over whole-subroutine operations; a tick of a
+    subroutine in flight makes the bookkeeping of that application unknown until it registers again."""
+
+    def __init__(self):
+        self.failures = []
+        self.defined = {}     # (executor, app) -> set of registers written since registration, or None
+
+    def before(self, real, idx, o):
+        pass
+
+    def after(self, real, idx, o, r, st):
+        ex, k = o.get("ex", 0), o["k"]
+        if k == "init" and not isinstance(r.get("fault"), dict):
+            self.defined[(ex, o["a"])] = set()
+        elif k == "stop" and not isinstance(r.get("fault"), dict):
+            self.defined.pop((ex, o["a"]), None)
+        elif k in ("tick", "hooktick", "abort"):
+            a = real.subs[o["i"]]["a"] if o["i"] < len(real.subs) else None
+            if (ex, a) in self.defined:
+                self.defined[(ex, a)] = None
+        elif k == "keep" and (ex, o["a"]) in self.defined:
+            pass
+        elif k == "sub":
+            key = (ex, o["a"])
+            d = self.defined.get(key)
+            if d is None or real.lenient:
+                return
+            out, visited, prog = r["out"], r["visited"], o["p"]
+            for n, pcv in enumerate(visited):
+                kk = pcv if pcv >= 0 else pcv + len(prog)
+                if not 0 <= kk < len(prog):
+                    return
+                faulted = out["o"] != "halted" and out["o"] != "fuel" and n == len(visited) - 1
+                reads, w = _instr_regs(prog[kk])
+                if not faulted:
+                    und = [q for q in reads if q not in d]
+                    if und:
+                        self.failures.append({
+                            "what": "a register read before any write since the application was registered yielded "
+                                    "a value (classical state of a re-registered application is not fresh)",
+                            "op_index": idx, "app": o["a"], "line": pcv, "instruction": render(prog[kk]),
+                            "register": "%s%d" % ("RCQM"[und[0][0]], und[0][1])})
+                        self.defined[key] = None
+                        return
+                    if w is not None:
+                        d.add(w)
+            e = real.e
+            table = e._registers.get(o["a"])
+            if table is not None:
+                for (b, i) in sorted(d):
+                    if table[RegisterName(b)]._register.get(i) is None:
+                        self.failures.append({
+                            "what": "a register written by the application is not in its own register table "
+                                    "(writes go somewhere else)", "op_index": idx, "app": o["a"],
+                            "register": "%s%d" % ("RCQM"[b], i)})
+                        self.defined[key] = None
+                        return
 
 
 class ReturnObserver:
@@ -917,17 +1023,19 @@ class Gen:
         return {"hw": False, "msg": msg, "apps": list(range(napps)), "addrs": [0, 1], "ops": ops}
 
 
-def par_scenario(rng, nticks):
+def par_scenario(rng, nticks, msg=False, identical=False):
     """2-3 applications, one subroutine of each in flight at the same time (sometimes a second one of
     the same application), advanced one instruction at a time in a random order; life-cycle
     operations and link-layer actions may fall in between."""
     r = rng
-    g = Gen(r)
+    g = Gen(r, encodable=msg)
+    g.small = msg
     g.hot = [(2, 0), (2, 1), (0, 0), (0, 1), (0, 2)]
     g.addrs = [0, 1]
     qw = ["set", "set", "set", "qalloc", "qalloc", "qfree", "store", "array", "array", "ret_reg", "ret_arr",
           "add", "meas", "q1", "load", "undef", "lea", "bnz", "jmp"]
     napps = r.choice([2, 2, 3])
+    shared_prog = None
     ops = [{"k": "init", "a": a, "n": r.choice([1, 2, 3, 4])} for a in range(napps)]
     apps_of = []
     order = list(range(napps))
@@ -941,6 +1049,10 @@ def par_scenario(rng, nticks):
             if r.random() < 0.45:
                 prog.append(["set", 2, r.randrange(2), r.choice([0, 0, 1, 1, 2, 3, -1])])
             prog.append(g.instr(20, qw))
+        if identical:
+            # the applications of a multi-app program send the same (byte-identical) subroutine
+            shared_prog = shared_prog or prog
+            prog = [list(i) for i in shared_prog]
         ops.append({"k": "spawn", "a": a, "p": prog})
         apps_of.append(a)
     for _ in range(nticks):
@@ -958,7 +1070,7 @@ def par_scenario(rng, nticks):
             a = r.randrange(napps)
             ops.append({"k": "spawn", "a": a, "p": [g.instr(6, qw) for _ in range(r.choice([2, 4]))]})
             apps_of.append(a)
-    return {"hw": False, "apps": list(range(napps)), "addrs": [0, 1], "ops": ops}
+    return {"hw": False, "msg": msg, "apps": list(range(napps)), "addrs": [0, 1], "ops": ops}
 
 
 def multi_scenario(rng, nticks, style="c13"):
